@@ -22,7 +22,9 @@ RULE = ("E1 with the interpreter's set-iteration order owned by the explorer "
         "repeat in FULL (per-timestep table minus algtime, task table, event "
         "log); all must be identical.  Seam binding: the same cases in "
         "separate interpreter processes under K real PYTHONHASHSEED values "
-        "must reproduce an enumerated output.  non-trivial = case with >=2 "
+        "must reproduce an enumerated output.  Real DelayModel instances "
+        "that draw (3-4 distributions/degrees/seeds): three runs from fresh "
+        "objects in one process must be identical.  non-trivial = case with >=2 "
         "simultaneously ready tasks")
 
 CHILD = os.path.join(os.path.dirname(os.path.dirname(
@@ -92,6 +94,33 @@ def ready_cases(tier):
                     out.append(("S-ready%s/%s" % ("2" if two else "",
                                                   alg["kind"]),
                                 dict(case, alg=alg)))
+    return out
+
+
+def delay_cases(tier):
+    """real DelayModel instances that actually draw: 'same delay seed =>
+    same run' must also hold for runs made one after another in ONE process
+    (fresh objects each time)"""
+    out = []
+    wa = dag("fork", [8, 12, 9], [1, 0])
+    wb = dag("chain2", [10, 8], [2])
+    specs = [("normal", "LOW", 0.5, 20), ("normal", "HIGH", 0.3, 7),
+             ("poisson", "MID", 0.5, 20), ("uniform", "HIGH", 0.9, 3)]
+    if tier == "thorough":
+        specs += [("normal", "MID", 0.1, 1), ("poisson", "LOW", 0.7, 11),
+                  ("uniform", "LOW", 0.5, 20)]
+    for machines in (CLUSTERS[2][0], CLUSTERS[2][1]):
+        obs = [mkobs("a", 0, 1, 1, 1, 1, "wa"),
+               mkobs("b", 1, 2, 1, 1, 1, "wb")]
+        cfg = mkcfg(machines, obs, (100, 10), (100, 10), 2, 2)
+        for dist, deg, prob, sd in specs:
+            for alg in ({"kind": "queue"}, {"kind": "batch", "p": 1,
+                                            "min": 1}):
+                out.append(("S-delaymodel/%s" % alg["kind"],
+                            mkcase(cfg, {"wa": wa, "wb": wb}, alg,
+                                   delay={"mode": "model", "dist": dist,
+                                          "degree": deg, "prob": prob,
+                                          "seed": sd})))
     return out
 
 
@@ -253,6 +282,43 @@ def run(rep, tier, seed):
                           det, sc)
     rep.add_sample({"case": cs[0][1], "permutations": "all %d! orders" %
                     len(task_keys(cs[0][1]))})
+    # ---- same delay seed, several runs in one process --------------------
+    dcs = delay_cases(tier)
+
+    def dwork(i, item):
+        sc, case = item
+        outs = [full_out(case, None) for _ in range(3)]
+        vs = []
+        if outs[0] != outs[1] or outs[0] != outs[2]:
+            vs.append(("C10.same-in-one-process",
+                       "back-to-back-runs-differ:delay-model:%s"
+                       % case["delay"]["dist"],
+                       {"keys": [k for k in outs[0]
+                                 if outs[0].get(k) != outs[1].get(k)
+                                 or outs[0].get(k) != outs[2].get(k)]}))
+        delayed = sum(1 for t in outs[0].get("tasks", {}).values()
+                      if t.get("aft") is not None)
+        return vs, outs[0]
+    dres, _ = engine.parallel_map(dwork, dcs)
+    drew = 0
+    for (sc, case), (vs, o) in zip(dcs, dres):
+        s_ = rep.scope(sc)
+        s_["cases"] += 1
+        s_["executions"] += 3
+        rep.evaluations += 3
+        rep.states.add(hash(repr(case)))
+        if o.get("df") and any(r.get("schedule_status") == "DELAYED"
+                               for r in o["df"]):
+            drew += 1
+            rep.nontrivial.add(hash(repr(case)))
+        for clause, cause, det in vs:
+            rep.violation(clause, cause, {"engine": "E1", "case": case,
+                                          "delaymodel": True}, det, sc)
+    if not drew:
+        raise HarnessError("C10 vacuous: no delay-model case ever delayed "
+                           "a task")
+    cs_all = cs
+    full_by_case = full_by_case
     rep.extra["states_note"] = "states = distinct static cases"
     # ---- cross-process binding under real hash seeds ----------------------
     K = 32 if tier == "thorough" else 4
@@ -301,6 +367,13 @@ def run(rep, tier, seed):
 
 def replay(payload):
     case = payload["case"]
+    if payload.get("delaymodel"):
+        outs = [full_out(case, None) for _ in range(3)]
+        if outs[0] != outs[1] or outs[0] != outs[2]:
+            return [{"clause": "C10.same-in-one-process",
+                     "cause": "back-to-back-runs-differ:delay-model:%s"
+                     % case["delay"]["dist"], "detail": None}]
+        return []
     keys = task_keys(case)
     n = len(keys)
     vs = []
